@@ -210,6 +210,11 @@ func checkCache(h *History, vs []*opView) {
 	upMax, upMin := us(rp.Net.UpLatUs[1])+time.Millisecond, us(rp.Net.UpLatUs[0])
 	sigma := stallSlack(h.P)
 	ample := rp.Cache.MemSize >= 1<<20
+	if rs := rp.Cache.Redis; rs != nil && (len(rs.DownUs) > 0 || len(rs.FlushUs) > 0) {
+		// an unreachable second level delays lookups by its time-out, and a
+		// flushed one forgets; the "must be a hit" clauses do not apply then
+		ample = ample && false
+	}
 	faultFree := rp.Net.UpDrop == 0 && rp.Net.UpDup == 0 && rp.Net.UpCorrupt == 0 && len(rp.Net.Partitions) == 0 && len(rp.Net.Connect) == 0
 
 	type firstRelay struct {
